@@ -5,7 +5,7 @@ from typing import Any, Callable
 
 from spec_classes.types import MISSING, UNCHANGED
 from spec_classes.utils.method_builder import MethodBuilder
-from spec_classes.utils.mutation import mutate_value
+from spec_classes.utils.mutation import _restored_on_error, mutate_value
 from spec_classes.utils.type_checking import type_label
 
 from .base import MethodDescriptor
@@ -174,12 +174,15 @@ class ResetMethod(MethodDescriptor):
         if not _inplace:
             self = copy.deepcopy(self)
 
-        for attr in self.__spec_class__.attrs:
-            try:
-                # A private copy may be mutated even if the class is frozen.
-                self.__delattr__(attr, force=not _inplace)
-            except AttributeError:
-                pass
+        # (If resetting one of the attributes fails, those already reset on a
+        # live instance are put back.)
+        with _restored_on_error(self, enabled=_inplace):
+            for attr in self.__spec_class__.attrs:
+                try:
+                    # A private copy may be mutated even if the class is frozen.
+                    self.__delattr__(attr, force=not _inplace)
+                except AttributeError:
+                    pass
 
         return self
 
